@@ -25,6 +25,8 @@ import (
 	"github.com/btcsuite/btcd/wire/v2"
 	"github.com/lightningnetwork/lnd/chainntnfs"
 	"github.com/lightningnetwork/lnd/channeldb"
+	"github.com/lightningnetwork/lnd/chanstate"
+	lnmock "github.com/lightningnetwork/lnd/lntest/mock"
 	"github.com/lightningnetwork/lnd/fn/v2"
 	"github.com/lightningnetwork/lnd/input"
 	"github.com/lightningnetwork/lnd/lntypes"
@@ -160,7 +162,25 @@ func TestVerifC04Brar(t *testing.T) {
 			}
 			var lives []live
 			dead := false
+			// the chain watcher's own copies of the channel, loaded from the
+			// database at an earlier point of the history (two per node)
+			var stale [2][]*chanstate.OpenChannel
+			takeStale := func() {
+				for x := 0; x < 2; x++ {
+					xs := ch[x].State()
+					for k := 0; k < 2; k++ {
+						if cs, err := xs.Db.FetchOpenChannels(xs.IdentityPub); err == nil && len(cs) == 1 {
+							cs[0].ThawHeight = thaw
+							stale[x] = append(stale[x], cs[0])
+						}
+					}
+				}
+			}
+			staleRd := 1 + r.Intn(rounds-1)
 			for rd := 0; rd < rounds && !dead; rd++ {
+				if rd == staleRd {
+					takeStale()
+				}
 				record()
 				nAdd := 1 + r.Intn(3)
 				var last *lnwire.UpdateAddHTLC
@@ -343,6 +363,132 @@ func TestVerifC04Brar(t *testing.T) {
 							}()
 						}
 					}
+				}
+			}
+			// Real chain watcher on its own, earlier loaded copy of the channel:
+			// one spend of a state revoked before the copy was taken and one
+			// revoked afterwards must both be recognised (handleCommitSpend ->
+			// newChainSet -> handlePossibleBreach -> contractBreach hand-off)
+			// and yield a justice transaction the script engine accepts.
+			for v := 0; v < 2 && !dead; v++ {
+				if len(stale[v]) < 2 {
+					continue
+				}
+				vn := [2]string{"A", "B"}[v]
+				copyH := stale[v][0].RemoteCommitment.CommitHeight
+				finalH := ch[v].State().RemoteCommitment.CommitHeight
+				h0 := uint64(0)
+				if kind.ct.HasLeaseExpiration() {
+					h0 = 1
+				}
+				var picks []struct {
+					when string
+					h    uint64
+				}
+				if copyH > h0 {
+					picks = append(picks, struct {
+						when string
+						h    uint64
+					}{"before", h0 + uint64(r.Int63n(int64(copyH-h0)))})
+				}
+				if finalH > copyH && copyH >= h0 {
+					picks = append(picks, struct {
+						when string
+						h    uint64
+					}{"after", copyH + uint64(r.Int63n(int64(finalH-copyH)))})
+				}
+				for pi, pk := range picks {
+					ctTx := held[1-v][pk.h]
+					if ctTx == nil {
+						continue
+					}
+					sc := stale[v][pi]
+					ctx := fmt.Sprintf("v:%s,h:%d", vn, pk.h)
+					var got *lnwallet.BreachRetribution
+					res := "ok"
+					func() {
+						defer func() {
+							if rr := recover(); rr != nil {
+								res = "panic"
+							}
+						}()
+						notifier := &lnmock.ChainNotifier{
+							SpendChan: make(chan *chainntnfs.SpendDetail, 1),
+							EpochChan: make(chan *chainntnfs.BlockEpoch),
+							ConfChan:  make(chan *chainntnfs.TxConfirmation, 1),
+						}
+						cw, err := newChainWatcher(chainWatcherConfig{
+							chanState:           sc,
+							notifier:            notifier,
+							signer:              ch[v].Signer,
+							extractStateNumHint: lnwallet.GetStateNumHint,
+							contractBreach: func(br *lnwallet.BreachRetribution) error {
+								got = br
+								return nil
+							},
+						})
+						if err != nil {
+							res = "err:watcher"
+							return
+						}
+						hash := ctTx.TxHash()
+						err = cw.handleCommitSpend(&chainntnfs.SpendDetail{
+							SpentOutPoint: &sc.FundingOutpoint, SpenderTxHash: &hash,
+							SpendingTx: ctTx, SpendingHeight: 777,
+						})
+						switch {
+						case err != nil:
+							res = "err:" + c04Short(err)
+						case got == nil:
+							res = "nobreach"
+						case got.BreachTxHash != hash || got.RevokedStateNum != pk.h:
+							res = "wrongstate"
+						}
+					}()
+					fmt.Fprintf(w, "watch ctx=%s stale=%s copyh=%d finalh=%d => %s\n", ctx, pk.when,
+						copyH, finalH, res)
+					if got == nil {
+						continue
+					}
+					brar := NewBreachArbitrator(&BreachConfig{
+						Estimator: chainfee.NewStaticEstimator(253, 0),
+						GenSweepScript: func() fn.Result[lnwallet.AddrWithKey] {
+							return fn.Ok(lnwallet.AddrWithKey{})
+						},
+						Signer: ch[v].Signer,
+					})
+					func() {
+						defer func() {
+							if rr := recover(); rr != nil {
+								fmt.Fprintf(w, "jtx ctx=%s => panic\n", ctx)
+							}
+						}()
+						ret := newRetributionInfo(&sc.FundingOutpoint, got)
+						txs, err := brar.createJusticeTx(ret.breachedOutputs)
+						if err != nil {
+							fmt.Fprintf(w, "jtx ctx=%s => err:%s\n", ctx, c04Short(err))
+							return
+						}
+						fmt.Fprintf(w, "jtx ctx=%s => ok\n", ctx)
+						prev := map[wire.OutPoint]*wire.TxOut{}
+						for i, o := range ctTx.TxOut {
+							prev[wire.OutPoint{Hash: ctTx.TxHash(), Index: uint32(i)}] = o
+						}
+						jc := txs.spendAll
+						for i, inp := range jc.inputs {
+							wt := inp.WitnessType()
+							op := jc.justiceTx.TxIn[i].PreviousOutPoint
+							amtOK := 0
+							if o, ok := prev[op]; ok && o.Value == inp.SignDesc().Output.Value &&
+								string(o.PkScript) == string(inp.SignDesc().Output.PkScript) {
+								amtOK = 1
+							}
+							fmt.Fprintf(w, "jin ctx=%s variant=watcher-%s kind=%s wt=%v ver=%d seq=%d lock=%d idx=%d recok=%d => %s\n",
+								ctx, pk.when, c04KindOf(wt), wt, jc.justiceTx.Version,
+								jc.justiceTx.TxIn[i].Sequence, jc.justiceTx.LockTime, op.Index, amtOK,
+								c04Exec(jc.justiceTx, i, prev))
+						}
+					}()
 				}
 			}
 			fmt.Fprintf(w, "END\n")
